@@ -213,7 +213,14 @@ func (r *FuncResult) SMTText(o *Obligation, expectSat bool) string {
 		sb.WriteString(d.Text)
 		sb.WriteByte('\n')
 	}
-	roots := append([]*smt.Term{}, x.hyps[:o.NHyps]...)
+	var roots []*smt.Term
+	seenH := map[int]bool{}
+	for _, h := range x.hyps[:o.NHyps] {
+		if !seenH[h.ID] {
+			seenH[h.ID] = true
+			roots = append(roots, h)
+		}
+	}
 	roots = append(roots, x.b.And(o.Guard, x.b.Not(o.Goal)))
 	pr := x.b.NewPrinter()
 	sb.WriteString(pr.Script(roots))
